@@ -38,6 +38,8 @@ fn gen_int(kind: &str, i: usize, rng: &mut Rng) -> i64 {
         "ramp" => (i as i64) + 1,
         "small" => rng.below(7) as i64 - 3,
         "pos" => 1 + rng.below(50) as i64,
+        // a few byte values incl. non-bits (symbol streams)
+        "smallbytes" => [0, 1, 2, 3, 255, 1, 0, 1][rng.below(8)],
         "bytes" => match rng.below(6) {
             0 => 0,
             1 => 255,
